@@ -380,6 +380,14 @@ def r07e(ctx, run):
     c15.r15d(ctx, run)
 
 
+def r07g(ctx, run):
+    """`ExprIsConst::Unknown` means "not constant, and say nothing: an error was already reported": get_const answering Unknown (or Const) for an
+    expression that is merely not constant drops the diagnostic while the caller still takes the failure path - no error, no executable (shared
+    with C15 R15.b: the classification per expression kind)"""
+    import c15
+    c15.r15b(ctx, run)
+
+
 def r07f(ctx, run):
     import c12
     c12.noeval_law(ctx, run, clauses=("wrapped",))
@@ -391,6 +399,7 @@ def rules(ctx):
         Rule("R07.b", "every TyDiagnostic literal names its expression (6+1 enumerated exceptions)", 75, r07b),
         Rule("R07.d", "operator/type combinations the checker accepts are ones the code generator has an arm for (belief vs use, across crates)", 80, r07d),
         Rule("R07.e", "every path that finishes a global's body passes the GlobalNotConst test (must-pass-through on MIR)", 1, r07e),
+        Rule("R07.g", "get_const's classification per expression kind: Unknown (= stay silent) only where an error was already reported (shared with C15 R15.b)", 60, r07g),
         Rule("R07.f", "the common type of a branch that always jumps and any other branch never wraps `noeval` in a constructor (no code-generator support, no diagnostic)", 60, r07f),
         Rule("R07.c", "is_safe_to_compile: complete error set, membership first, Missing/unknown/unlabelled unsafe; severity mapping", 11, r07c),
     ]
